@@ -324,38 +324,36 @@ def check_distance(run, rule='R23'):
                'norm(l1.w)': Val([Poly.atom('nw1')]), 'norm(l2.w)': nb}
         return env, a, b, p1, p2
 
-    # locate the assignments to the result in the two branches
-    top = None
-    for st in own_walk(f.node):
-        if isinstance(st, ast.If) and matches('l1 | l2', st.test) is not None:
-            top = st
-    if top is None:
-        run.error('R23: Plucker.distance: `if l1 | l2` not found')
-        return
-
-    def last_assign(stmts):
-        out = None
-        for st in stmts:
-            for y in ast.walk(st):
-                if isinstance(y, ast.Assign) and isinstance(y.targets[0], ast.Name) and not (isinstance(y.value, ast.Constant) and y.value.value == 0):
-                    out = y
-        return out
-    for label, stmts, parallel in (('parallel lines', top.body, True), ('skew lines', top.orelse, False)):
-        a_st = last_assign(stmts)
-        if a_st is None:
-            run.error('R23: Plucker.distance: no distance expression in the %s branch' % label)
+    # per-path value of the result (symbolic substitution of locals along every path, with the path conditions)
+    from .r16_tables import Ctx, sl_eval
+    cx = Ctx(run, 'geom3d:Plucker.distance')
+    S1 = f.selfname
+    S2 = [p_ for p_ in f.params if p_ != S1][0]
+    paths = sl_eval(cx, with_conds=True)
+    branches = {}
+    for (r, e, conds) in paths:
+        par = [pol for (c, pol) in conds if matches('%s | %s' % (S1, S2), c) is not None or matches('%s.isparallel(%s)' % (S1, S2), c) is not None]
+        if not par:
             continue
+        if isinstance(e, ast.Constant) and e.value == 0:
+            continue                      # intersecting lines
+        branches.setdefault('parallel lines' if par[-1] else 'skew lines', []).append((r, e))
+    for label, parallel in (('parallel lines', True), ('skew lines', False)):
+        if len(branches.get(label, [])) != 1:
+            run.error('R23: Plucker.distance: %d value paths found for %s (expected 1)' % (len(branches.get(label, [])), label))
+            continue
+        a_st, e = branches[label][0]
         env, a, b, p1, p2 = env_for(parallel)
+        env = {k.replace('l1.', S1 + '.').replace('l2.', S2 + '.'): v for k, v in env.items()}
 
         class EV(VecEval):
-            def ev(self2, e):
-                if isinstance(e, ast.BinOp) and isinstance(e.op, ast.Mult) and ast.unparse(e.left) == 'l1' and ast.unparse(e.right) == 'l2':
-                    sub = VecEval({k.replace('l1.', L + '.').replace('l2.', Rn + '.'): v for k, v in env.items()})
+            def ev(self2, e_):
+                if isinstance(e_, ast.BinOp) and isinstance(e_.op, ast.Mult) and ast.unparse(e_.left) == S1 and ast.unparse(e_.right) == S2:
+                    sub = VecEval({k.replace(S1 + '.', L + '.').replace(S2 + '.', Rn + '.'): v for k, v in env.items()})
                     return sub.ev(recip)
-                return VecEval.ev(self2, e)
+                return VecEval.ev(self2, e_)
         vev = EV(env)
-        e = canon(fi, a_st.value, inline=False)
-        construct = 'distance, %s: %s' % (label, src(a_st.value, 50))
+        construct = 'distance, %s: %s' % (label, src(e, 50))
         try:
             got = SqEval(vev).sq(e)
         except VectorResult:
